@@ -15,7 +15,8 @@ REQUIRED_THEOREMS = ["C07_length", "C07_copy", "C07_parents_sorted", "C07_parent
                      "C07_advance_fuel", "C07_count_bound", "C07_zero_weight_not_selected", "C07_heavy_selected",
                      "C07_u1_zero_boundary_refuted", "C07_neff_formula", "C07_neff_range",
                      "C07_selection_interval", "C07_lse_spec", "C07_lse_normalises",
-                     "C07p_num_prior", "C07p_partition", "C07p_parents", "C07p_copy", "C07p_uniform", "C07p_reports_N", "C07p_count_bound"]
+                     "C07p_num_prior", "C07p_partition", "C07p_parents", "C07p_copy", "C07p_uniform", "C07p_reports_N", "C07p_count_bound",
+                     "C07_copy_members", "C07p_copy_members", "C07p_parent_exact", "C07p_fresh_left"]
 RULE = ("cases from one seeded stream: N in 1..200, log-weight vectors uniform / one-hot / with exact zeros (-inf) / geometric over 300 "
         "orders of magnitude / dyadic / random / with exact ties, layouts linear / Euler-circular / quaternion (dc in 1..2, with and without a "
         "linear part; dim != dim_covariance for quaternions), 32-bit seeds, 1..3 successive draws on the same object, an earlier call with another N "
@@ -337,9 +338,12 @@ def compare(c, impl, model):
                 diffs.append("parents: impl=%s model=%s" % (col(impl, "parents")[:12], col(model, "parents")[:12]))
             src = col(model, "src")
             if impl.get("state").shape[1] == N and src.size == N:
-                bad = [j for j in range(N) if not is_copy(c, impl, j, int(src[j]))]
-                if bad:
-                    diffs.append("copies: output %d is not the model's source %d" % (bad[0], int(src[bad[0]])))
+                dcv = c.get("cov").shape[0]
+                for nm, key in (("state", "src"), ("mean", "src_mean"), ("cov", "src_cov")):
+                    sm = col(model, key)
+                    bad = [j for j in range(N) if not same_bits(impl_block(impl, nm, j, dcv), column_of(c, nm, int(sm[j])))]
+                    if bad:
+                        diffs.append("copies: %s of output %d is not the model's source %d" % (nm, bad[0], int(sm[bad[0]])))
             else:
                 diffs.append("sizes: impl state cols %d, model %d" % (impl.get("state").shape[1], src.size))
         return diffs
